@@ -41,7 +41,7 @@ def runners(chk): return vlib.build_impl(chk.dir), None, (), ()
 def run(chk):
     r = chk.rng
     chk.coq()
-    asan = vlib.build_impl(chk.dir, name='impl_asan', cc='clang', opt='-O1', flags=['-g', '-fsanitize=address,undefined', '-fno-sanitize-recover=undefined', '-fno-omit-frame-pointer'])
+    asan = vlib.build_impl(chk.dir, name='impl_asan', cc='clang', opt='-O1', flags=['-g', '-DVERIF_EXACT_BUFFERS=1', '-fsanitize=address,undefined', '-fno-sanitize-recover=undefined', '-fno-omit-frame-pointer'])
     env_note = 'ASAN_OPTIONS default (abort on error); UBSan non-recoverable'
     tot_bad = 0
     for f in sorted(glob.glob(os.path.join(vlib.ROOT, 'corpus', 'api', '*.cases'))):
